@@ -514,11 +514,25 @@ class Frame:
     def e_Set(self, e):
         return [self.expr(x) for x in e.elts]
 
+    def _elts(self, elts):
+        out = []
+        for x in elts:
+            if isinstance(x, ast.Starred):
+                v = self.expr(x.value)
+                if isinstance(v, range):
+                    v = list(v)
+                if not isinstance(v, (list, tuple)):
+                    raise AnalysisError("engine B: * of %r at %s:%d" % (v, self.mod.name, getattr(x, "lineno", 0)))
+                out.extend(v)
+            else:
+                out.append(self.expr(x))
+        return out
+
     def e_List(self, e):
-        return [self.expr(x) for x in e.elts]
+        return self._elts(e.elts)
 
     def e_Tuple(self, e):
-        return tuple(self.expr(x) for x in e.elts)
+        return tuple(self._elts(e.elts))
 
     def _comp(self, gens, fn):
         def rec(i):
@@ -696,10 +710,12 @@ class Frame:
 
     def compare(self, op, a, b, node):
         lab = "%s@%d" % (_short(node), getattr(node, "lineno", 0))
-        if isinstance(op, ast.Is):
-            return a is b
-        if isinstance(op, ast.IsNot):
-            return a is not b
+        if isinstance(op, (ast.Is, ast.IsNot)):
+            for x, y in ((a, b), (b, a)):
+                if hasattr(x, "abstract_is"):
+                    r = x.abstract_is(self, y, node)
+                    return r if isinstance(op, ast.Is) else not r
+            return (a is b) if isinstance(op, ast.Is) else (a is not b)
         if isinstance(op, (ast.In, ast.NotIn)):
             r = self.member(a, b, node)
             return r if isinstance(op, ast.In) else not r
@@ -814,6 +830,8 @@ class Frame:
         return self.getattr(o, e.attr, e)
 
     def getattr(self, o, attr, node=None):
+        if attr == "__class__" and getattr(self.ev, "class_of", None) is not None:
+            return self.ev.class_of(self, o, node)
         if isinstance(o, Obj):
             if attr in o.d:
                 return o.d[attr]
